@@ -34,7 +34,7 @@ from harness import tlc as tlcmod
 from harness import tla_values
 from harness.tla_values import to_tla
 
-CUT_INV = ["ReqBoxSound", "ReqSelfZero", "ReqSymmetric", "ReqPeriodic", "ReqOffBoundary", "ReqMonotone", "ReqSymmetricKept",
+CUT_INV = ["ReqBoxSound", "ReqRebase", "ReqAtomsDistinct", "ReqSelfZero", "ReqSymmetric", "ReqPeriodic", "ReqOffBoundary", "ReqMonotone", "ReqSymmetricKept",
            "ReqAllKeptBeyondDiameter", "ImplKeptIffWithin", "ImplIdempotent", "ImplCompose", "ImplDirect", "ImplCompactIsRowsOfFull"]
 DRIFT_INV = ["HypTransConsistent", "HypArrayIsLayout", "ReqCompactSuffices", "ImplParsed", "ImplDrift1Value", "ImplDrift1Where", "ImplDrift1WhereCompact", "ImplDrift1WhereUpToTranspose",
              "ImplDrift2Value", "ImplDrift2Where", "ImplUnchanged", "ImplPrefix", "ImplExpand"]
@@ -62,6 +62,12 @@ GEOMS_CUT_THOROUGH = [
     ("tric", [[2, 1, 0], [0, 2, 1], [1, 0, 2]], "P"),
     ("bcc", [[3, 0, 0], [0, 3, 0], [0, 0, 2]], "I"),
     ("wz", [[2, 1, 0], [0, 2, 0], [0, 0, 2]], "P"),
+    ("nacl", [[3, 0, 0], [0, 2, 0], [0, 0, 2]], "F"),
+    ("naclg", [[2, 0, 0], [0, 2, 0], [0, 0, 2]], "P"),
+    ("wz", [[3, 0, 0], [0, 3, 0], [0, 0, 2]], "P"),
+    ("hcp", [[4, 1, 0], [0, 4, 0], [1, 0, 2]], "P"),
+    ("tetab", [[3, -1, 0], [1, 3, 0], [0, 1, 3]], "P"),
+    ("bcc", [[2, 2, 0], [-2, 2, 0], [0, 0, 3]], "I"),
 ]
 GEOMS_DRIFT = [
     ("nacl", [[2, 0, 0], [0, 1, 0], [0, 0, 1]], "F"),
@@ -118,6 +124,9 @@ def judge(ctx, module, tag, invs, events, chunks=4):
             account(ctx, "MC_" + module, res, "(generated, %d events)" % len(part))
             if res.kind not in (None, "invariant") and not res.violations and res.distinct == 0:
                 raise tlcmod.MachineryError("x10: TLC failed on %s:\n%s" % (module, res.stdout[-3000:]))
+            if res.distinct != 3 * len(part) and not res.violations:
+                # every event is one behaviour load -> judge -> done: both actions fired for every event
+                raise tlcmod.MachineryError("x10: %s: %d states for %d events (expected 3 per event)" % (module, res.distinct, len(part)))
             for v in tlcmod.printed_values(res.stdout):
                 if isinstance(v, (list, tuple)) and v and v[0] == tag:
                     reports[v[1]] = v
@@ -130,6 +139,13 @@ def judge(ctx, module, tag, invs, events, chunks=4):
     if not (violated <= named and bool(violated) == bool(named)):
         raise tlcmod.MachineryError("x10: %s invariant verdicts %s differ from the per-event report %s" % (module, sorted(violated), sorted(named)))
     return reports
+
+
+def demo(ctx, name, module, invs, event, expect):
+    """A deliberately corrupted event must be rejected by the named judgement (the trace spec is bound to the log)."""
+    cfg = ("INIT Init\nNEXT Next\nCONSTANTS\n Events <- MCEvents\nCHECK_DEADLOCK FALSE\n" + "".join("INVARIANT %s\n" % i for i in invs))
+    mc = "---- MODULE MC_%s ----\nEXTENDS %s\nMCEvents == {\n%s}\n====\n" % (module, module, to_tla(event))
+    ctx.binding_demo(name, "MC_" + module, cfg, mc, expect)
 
 
 def report_failures(ctx, prefix, reports, byid, describe):
@@ -145,25 +161,43 @@ def report_failures(ctx, prefix, reports, byid, describe):
 
 # ---------------------------------------------------------------------------------------------------
 def cutoff_part(ctx, lib, Oracle):
-    geoms = GEOMS_CUT + ([] if ctx.quick else GEOMS_CUT_THOROUGH)
+    geoms = [(e, S, pm, False) for e, S, pm in GEOMS_CUT + ([] if ctx.quick else GEOMS_CUT_THOROUGH)]
+    # the family of ALL sublattices of small index (one Hermite basis each, re-based by unimodular matrices)
+    hnf = lib.hnf_matrices(4 if ctx.quick else 6)
+    fam_entries = ["tric", "hcp", "tetab", "cscl"]
+    for k, H in enumerate(hnf):
+        ents = [fam_entries[(k + ctx.seed) % 4]] if ctx.quick else fam_entries
+        for en in ents:
+            U = lib.REBASE[(k + len(en) + ctx.seed) % len(lib.REBASE)]
+            geoms.append((en, (np.array(H) @ np.array(U)).tolist(), "P", True))
     rng = np.random.default_rng(1000 + ctx.seed)
     events, keep = [], {}
     eid = 0
     classes = ["self", "mid", "mid", "mid", "all", "beyond"]
-    for g, (entry, S, pm) in enumerate(geoms):
-        orc = Oracle(entry, [lib.ID3], seed=ctx.seed + g, ctx=None)
+    orcs = {}
+    for g, (entry, S, pm, family) in enumerate(geoms):
+        if family:
+            orc = orcs.setdefault(entry, Oracle(entry, [lib.ID3], seed=ctx.seed + 7, ctx=None))
+        else:
+            orc = Oracle(entry, [lib.ID3], seed=ctx.seed + g, ctx=None)
         G = [[int(x) for x in r] for r in orc.cr["G"]]
-        for dense in ((True, False) if (g + ctx.seed) % 2 == 0 or not ctx.quick else (bool((g + ctx.seed) % 4 // 2),)):
+        if family:
+            denses = (bool((g + ctx.seed) % 2),)
+        else:
+            denses = (True, False) if (g + ctx.seed) % 2 == 0 or not ctx.quick else (bool((g + ctx.seed) % 4 // 2),)
+        for dense in denses:
             noisy = (g + ctx.seed) % 3 == 1
             ph = lib.build(orc, S, pm, dense, noise=(rng, 2e-8) if noisy else None)
             upos = lib.project(orc, ph.supercell)
             n = len(upos)
             p2s = [int(x) for x in ph.primitive.p2s_map]
-            for layout in ("full", "compact"):
+            for layout in (("full", "compact") if not family else (("full", "compact")[(g + ctx.seed) % 2],)):
                 rows = list(range(n)) if layout == "full" else p2s
-                B, tab = lib.choose_box(G, S, orc.D, upos, rows)
+                B, tab, U, R = lib.choose_box(G, S, orc.D, upos, rows)
                 vals = sorted(set(int(x) for x in tab.ravel()))
-                reps = 2 if ctx.quick else 4
+                if len(vals) < 3:
+                    continue                       # a single cell: nothing between the self distance and the diameter
+                reps = 1 if family else 2 if ctx.quick else 4
                 for rep in range(reps):
                     def pick(cls):
                         if cls == "self":
@@ -186,7 +220,7 @@ def cutoff_part(ctx, lib, Oracle):
                                       dict(entry=entry, S=S, pm=pm, layout=layout, route=route, radii=radii))
                         continue
                     eid += 1
-                    ev = dict(id=eid, gram=G, dd=orc.D, smat=S, upos=upos, rows=[r + 1 for r in rows], lay=layout, box=B,
+                    ev = dict(id=eid, gram=G, dd=orc.D, smat=S, umat=U, rbas=R, upos=upos, nunit=len(orc.num), rows=[r + 1 for r in rows], lay=layout, box=B,
                               rnum=rn, rden=rd, qnum=qn, qden=qd, st=out["st"], st2=out["st2"], st3=out["st3"], sd3=out["sd3"],
                               sf=out["sf"])
                     events.append(ev)
@@ -209,8 +243,11 @@ def cutoff_part(ctx, lib, Oracle):
             bad = np.argwhere(np.any(want != k["first"], axis=(2, 3)))[:5].tolist()
             ctx.violation("replay:cutoff", "the array returned by the cutoff differs from the input array with TLC's zero set applied",
                           dict(case=desc(k), first_wrong_pairs=bad))
+    bad = json.loads(json.dumps(events[0]))
+    bad["st"][0][-1] = 1 - bad["st"][0][-1] if bad["st"][0][-1] < 2 else 0
+    demo(ctx, "cutoff: one status flipped", "FCCutoff", ["ImplKeptIffWithin"], bad, "ImplKeptIffWithin")
     ctx.traces += len(events)
-    ctx.extra["cutoff"] = dict(events=len(events), geometries=len(geoms), pairs_kept=kept_total, pairs_zeroed=zero_total,
+    ctx.extra["cutoff"] = dict(events=len(events), geometries=len(geoms), sublattice_family=len(hnf), boxes=sorted(set(e["box"] for e in events)), pairs_kept=kept_total, pairs_zeroed=zero_total,
                                max_atoms=max(k["natom"] for k in keep.values()))
     if kept_total == 0 or zero_total == 0:
         raise tlcmod.MachineryError("x10: cutoff events are vacuous (kept %d, zeroed %d)" % (kept_total, zero_total))
@@ -236,33 +273,34 @@ def drift_part(ctx, lib, Oracle):
         p2s = [int(x) for x in ph.primitive.p2s_map]
         if len(perms) * len(p2s) != n:
             raise tlcmod.MachineryError("x10: %d exact translations x %d primitive atoms != %d atoms (%s)" % (len(perms), len(p2s), n, entry))
-        nk = 3 if ctx.quick else 5
+        nk = 3 if ctx.quick else 10
         for t in range(nk):
             kind = kinds[(t + g + ctx.seed) % len(kinds)] if t else "rand"
             F = lib.invariant_int_array(rng, perms, n, kind)
             for layout in ("full", "compact"):
                 name = [None, "fc2 test"][(eid + g) % 2]
                 vo = bool((eid // 2 + g) % 2)
-                arr = np.ascontiguousarray(F if layout == "full" else F[p2s], dtype="double")
-                handed = arr.astype(int).tolist()
+                den = [1, 4][(t + g + ctx.seed) % 2]              # entries are multiples of 1/den: sums and "%f" stay exact
+                arr = np.ascontiguousarray(F if layout == "full" else F[p2s], dtype="double") / den
+                handed = np.rint(arr * den).astype(int).tolist()
                 api = name is None and not vo and (eid + ctx.seed) % 3 != 2
                 try:
-                    out = lib.drift_call(arr, ph.primitive, name, vo, api=ph_log if api else None)
+                    out = lib.drift_call(arr, ph.primitive, name, vo, api=ph_log if api else None, den=den)
                     xa = compact_fc_to_full_fc(ph.primitive, arr.copy()) if layout == "compact" else full_fc_to_compact_fc(ph.primitive, arr.copy())
                 except Exception as exc:  # noqa: BLE001
                     ctx.violation("drift:raised", "show_drift_force_constants / layout conversion raised %r" % (exc,),
                                   dict(entry=entry, S=S, pm=pm, layout=layout))
                     continue
-                xi = lib.to_int_array(xa)
+                xi = lib.to_int_array(xa * den)
                 eid += 1
                 events.append(dict(id=eid, lay=layout, prows=[p + 1 for p in p2s], farr=handed, fullarr=F.tolist(),
                                    tperms=[[p + 1 for p in pp] for pp in perms], parsed=out["parsed"], rv1=out["rv1"], rc1=out["rc1"],
                                    rv2=out["rv2"], rc2=out["rc2"], same=out["same"], pfx=out["pfx"], nm=name or "force constants", vo=vo,
                                    xarr=(xi.tolist() if xi is not None else [])))
-                keep[eid] = dict(entry=entry, S=S, pm=pm, layout=layout, kind=kind, text=out["text"], name=name, values_only=vo,
+                keep[eid] = dict(entry=entry, S=S, pm=pm, layout=layout, kind=kind, text=out["text"], name=name, values_only=vo, unit="1/%d" % den,
                                  route="Phonopy.set_force_constants" if api else "show_drift_force_constants",
                                  array=handed if n <= 8 else "(%d atoms, seed %d)" % (n, ctx.seed))
-                ctx.count(("drift", entry, json.dumps(S), pm, layout, kind, name, vo, api))
+                ctx.count(("drift", entry, json.dumps(S), pm, layout, kind, name, vo, api, den))
     reports = judge(ctx, "FCDrift", "X10D", DRIFT_INV, events, chunks=4)
 
     def desc(k):
@@ -270,6 +308,9 @@ def drift_part(ctx, lib, Oracle):
     for i, v in reports.items():
         keep[i]["definition"] = dict(max1=v[3], where1=thaw(v[4]), max2=v[5], where2=thaw(v[6]))
     report_failures(ctx, "drift", reports, keep, desc)
+    bad = json.loads(json.dumps(events[0]))
+    bad["rv1"] += 1
+    demo(ctx, "drift: reported value off by one unit", "FCDrift", ["ImplDrift1Value"], bad, "ImplDrift1Value")
     ctx.traces += len(events)
     nz = sum(1 for v in reports.values() if v[3] != 0 or v[5] != 0)
     asym = sum(1 for v in reports.values() if any((b, a) not in v[4] for (a, b) in v[4]))
@@ -376,6 +417,9 @@ def rearrange_part(ctx, lib, Oracle):
                               dict(case=k, expected=pi))
             if pi != sorted(pi):
                 nontrivial += 1
+    bad = json.loads(json.dumps(next(e for e in events if e["outc"] == "ok")))
+    bad["idx"][0], bad["idx"][1] = bad["idx"][1], bad["idx"][0]
+    demo(ctx, "rearrange: two indices exchanged", "FCRearrange", ["ImplIndices"], bad, "ImplIndices")
     ctx.traces += len(events)
     errs = [k["oracle_max_abs_err"] for k in keep.values() if k["oracle_max_abs_err"] is not None]
     ctx.extra["rearrange"] = dict(events=len(events), nontrivial_permutations=nontrivial, oracle_compared=len(errs),
@@ -460,7 +504,7 @@ def siteops_part(ctx, lib, Oracle):
             a = a @ np.array(shears[int(rng.integers(len(shears)))], dtype=int)
         return a
 
-    for t in range(40 if ctx.quick else 160):
+    for t in range(40 if ctx.quick else 400):
         R, R2 = rmat(), rmat()
         M, M2 = rng.integers(-3, 4, size=(3, 3)), rng.integers(-3, 4, size=(3, 3))
         got = lib.to_int_array(similarity_transformation(R.astype(float), M.astype(float)))
@@ -469,7 +513,7 @@ def siteops_part(ctx, lib, Oracle):
                            got=got.tolist() if got is not None else []))
         keep[eid] = dict(kind="sim", R=R.tolist(), M=M.tolist(), got=got.tolist() if got is not None else None)
         ctx.count(("sim", t))
-    for t in range(20 if ctx.quick else 60):
+    for t in range(20 if ctx.quick else 150):
         us = rng.integers(-4, 5, size=(int(rng.integers(1, 4)), 3))
         syms = np.array([rmat() for _ in range(int(rng.integers(1, 5)))])
         res = get_rotated_displacement(us.astype(float), syms.astype(float))
@@ -486,6 +530,10 @@ def siteops_part(ctx, lib, Oracle):
         k = keep[i]
         if k["kind"] != "rotmap" and thaw(v[3]) != k["got"]:
             ctx.violation("replay:siteops:" + k["kind"], "%s differs from TLC's exact value" % k["kind"], dict(case=k, expected=thaw(v[3])))
+    bad = json.loads(json.dumps(next(e for e in events if e["kind"] == "rotmap" and len(e["got"]) > 1)))
+    bad["got"][0], bad["got"][1] = bad["got"][1], bad["got"][0]
+    if bad["got"][0] != bad["got"][1]:
+        demo(ctx, "rotmap: maps of two operations exchanged", "FCSiteOps", ["ImplAnswer"], bad, "ImplAnswer")
     ctx.traces += len(events)
     ctx.extra["siteops"] = dict(events=len(events), rotmap_events=sum(1 for k in keep.values() if k["kind"] == "rotmap"),
                                 nontrivial_rot_maps=nontrivial_maps, unimodular_matrices=len(pool))
@@ -510,6 +558,7 @@ def run(ctx):
     siteops_part(ctx, lib, Oracle)
     t4 = time.time()
     ctx.extra["wall_s"] = dict(cutoff=round(t1 - t0, 1), drift=round(t2 - t1, 1), rearrange=round(t3 - t2, 1), siteops=round(t4 - t3, 1))
+    ctx.extra["actions"] = "every event is a behaviour Load -> Judge -> done; 3 distinct states per event asserted for every TLC run"
     ctx.assumptions += [
         "radii lie strictly between two exact squared distances (ReqOffBoundary decided by TLC); the float comparison at the "
         "boundary itself is outside the claim",
